@@ -41,6 +41,9 @@ def mk(spec):
         return TOKENS[spec[1]]
     if k == 'bigfloat':                    # floats that differ by one unit at a large magnitude (epoch seconds), or by 1e-13 near 0
         return 1.7e9 + spec[1] if spec[2] == 'big' else 1e-13 * spec[1]
+    if k == 'np':                          # numpy scalars: == / != on them return numpy.bool_, not the bool singletons
+        import numpy
+        return numpy.int64(spec[1]) if spec[2] == 'i' else numpy.float64(spec[1])
     if k == 'nan':
         return NAN if spec[1] == 0 else float('nan')     # the shared object, or a fresh one: both differ from themselves by !=
     raise ValueError(spec)
@@ -57,12 +60,21 @@ SPEC = st.one_of(
     st.tuples(st.just('none')),
     st.tuples(st.just('token'), st.integers(0, 2)),
     st.tuples(st.just('nested'), st.integers(0, 1)),
+    st.tuples(st.just('np'), st.integers(0, 2), st.sampled_from(['i', 'f'])),
     st.tuples(st.just('bigfloat'), st.integers(0, 2), st.sampled_from(['big', 'tiny'])),
 ).map(list)
+
+def compatible(pool):
+    """numpy scalars compare element-wise with tuples (np.int64(1) == (0, 1) is an array without a truth value): a pool that
+    holds numpy scalars holds no tuples"""
+    if any(s[0] == 'np' for s in pool):
+        pool = [s for s in pool if s[0] not in ('tuple', 'nested')]
+    return pool
+
 
 FRESH = ('big', 'tuple', 'str', 'nested')
 
 
 def fresh_kind(spec):
     """keys of these kinds are distinct objects each time they are built."""
-    return spec[0] in FRESH or (spec[0] == 'num' and spec[2] == 'float') or spec[0] == 'bigfloat'
+    return spec[0] in FRESH or (spec[0] == 'num' and spec[2] == 'float') or spec[0] in ('bigfloat', 'np')
